@@ -305,3 +305,82 @@ def tilt_centre(c):
     if c.isfinite(s1[0]) and c.isfinite(s2[0]):
         for i in range(8):
             c.ensure_eq('C07.tilt.same_rays_after_tilting_about_the_centre_of_curvature', s2[i], s1[i], tol=1e-9)
+
+
+# ---- the surface step, by composition with the kernel contracts above ------------------------------------------------------
+# The kernels' contracts (C07.mirror.kernel.*, C02) say: under the mirror the geometry reports the same distance and the
+# mirrored normal; under a scaling by s it reports s times the distance and the same normal.  An abstract geometry that returns
+# exactly that, for *arbitrary* distance and unit normal, is traced by the real Surface._trace_real twice; the two results must
+# be related by the same symmetry -- for all inputs, no sampling.
+def _step_by_contract(kind, mirror):
+    from .c02 import _abstract_geometry
+    tag = '%s.%s' % (kind, 'reflect' if mirror else 'refract')
+
+    @contract('C07.surface_step.by_contract.' + tag, FUNCS, ['C07'], bundle=True, max_paths=64)
+    def sb(c):
+        surfs, mats = c.mod('optiland.surfaces'), c.mod('optiland.materials')
+        CoordinateSystem = c.mod('optiland.coordinate_system').CoordinateSystem
+        n1, n2 = c.real('n1', 1.0, 2.5, positive=True), c.real('n2', 1.0, 2.5, positive=True)
+        zv = c.real('z_vertex', 1, 10)
+        t = c.real('t', 0.5, 20, positive=True)
+        nrm = c.unit3('nx', 'ny', 'nz')
+        p, d = free_point(c), c.unit3('L', 'M', 'N')
+        d0 = dot(d, nrm)
+        c.require(d0 != 0)
+        if not mirror:
+            c.require(1 - (n1 / n2) ** 2 * (1 - d0 * d0) > 0)
+        if kind == 'scale':
+            s = c.real('scale', 0.2, 5, positive=True)
+            map_p = lambda v: tuple(s * x for x in v)
+            map_d = lambda v: v
+            t2, n2v, z2 = s * t, nrm, s * zv
+            sig = (s, s, s, 1, 1, 1)
+        else:
+            sx, sy = {'mirror_x': (-1, 1), 'mirror_y': (1, -1), 'mirror_xy': (-1, -1)}[kind]
+            map_p = lambda v: (sx * v[0], sy * v[1], v[2])
+            map_d = map_p
+            t2, n2v, z2 = t, map_p(nrm), zv
+            sig = (sx, sy, 1, sx, sy, 1)
+
+        def run(pp, dd, tt, nn, zz):
+            geo = _abstract_geometry(c, CoordinateSystem(z=zz), tt, nn)
+            surf = surfs.Surface(geo, mats.IdealMaterial(n1, 0.0), mats.IdealMaterial(n2, 0.0), is_reflective=mirror)
+            r = mk_rays(c, pp, dd)
+            surf.trace(r)
+            return pos_of(c, r) + dir_of(c, r), c.val(r.opd), c.val(r.i)
+        (s1, o1, i1) = run(p, d, t, nrm, zv)
+        (s2, o2, i2) = run(map_p(p), map_d(d), t2, n2v, z2)
+        for a, b, sg in zip(s1, s2, sig):
+            c.ensure_eq('C07.surface_step.by_contract.%s' % ('lengths_scale_directions_unchanged' if kind == 'scale' else 'is_equivariant_under_the_mirror'), b, sg * a)
+        c.ensure_eq('C07.surface_step.by_contract.optical_path_%s' % ('scales' if kind == 'scale' else 'unchanged'), o2, (sig[0] if kind == 'scale' else 1) * o1)
+        c.ensure_eq('C07.surface_step.by_contract.intensity_unchanged', i2, i1)
+    return sb
+
+
+for _kind in ('mirror_x', 'mirror_y', 'mirror_xy', 'scale'):
+    for _m in (False, True):
+        _step_by_contract(_kind, _m)
+
+
+# (StandardGeometry.distance under scaling -- t(s p, d; s R, k) = s t(p, d; R, k) -- is not under a symbolic contract: the two
+# runs fork independently on large polynomials and the exploration does not finish; it is covered by the bounded
+# C07.homogeneity contract on the real code.  The normal and the Plane distance are proved below.)
+
+
+@contract('C07.scale.kernels.normal', FUNCS, ['C07'], bundle=True, max_paths=64, sqrt_factor=True, concolic=False)
+def scale_normal(c):
+    geos = c.mod('optiland.geometries')
+    CoordinateSystem = c.mod('optiland.coordinate_system').CoordinateSystem
+    R = c.real('R', -60, 60, nonzero=True)
+    k = c.real('k', -2, 1)
+    s = c.real('scale', 0.2, 5, positive=True)
+    x, y = c.real('x', -3, 3), c.real('y', -3, 3)
+    c.require(1 - (1 + k) * (x * x + y * y) / (R * R) > 0)
+    n1 = geos.StandardGeometry(CoordinateSystem(), R, k).surface_normal(mk_rays(c, (x, y, 0.0), (0.0, 0.0, 1.0)))
+    n2 = geos.StandardGeometry(CoordinateSystem(), s * R, k).surface_normal(mk_rays(c, (s * x, s * y, 0.0), (0.0, 0.0, 1.0)))
+    for a, b in zip(n1, n2):
+        c.ensure_eq('C07.scale.kernel.normal_unchanged', c.val(b), c.val(a))
+    pl = geos.Plane(CoordinateSystem())
+    p, d = free_point(c), c.unit3('L', 'M', 'N')
+    c.require(d[2] != 0)
+    c.ensure_eq('C07.scale.kernel.plane_distance_scales', c.val(pl.distance(mk_rays(c, tuple(s * v for v in p), d))), s * c.val(pl.distance(mk_rays(c, p, d))))
